@@ -14,8 +14,8 @@ def install_atoms():
 
 def explore(ck, label="gp_reference", focus="all"):
     install_atoms()
-    r = run_tlc("MC_GpExact", cfg_text="INIT Init\nNEXT Next\nCONSTANT Focus = \"%s\"\nINVARIANT VarRange\nINVARIANT CovSymmetric\nINVARIANT Shortcut\nINVARIANT OrderIndep\n"
-                                       "CHECK_DEADLOCK FALSE\n" % focus, timeout=2400)
+    r = run_tlc("MC_GpExact", cfg_text="INIT Init\nNEXT Next\nCONSTANT Focus = \"%s\"\nCONSTANT Deep = %s\nINVARIANT VarRange\nINVARIANT CovSymmetric\nINVARIANT Shortcut\nINVARIANT OrderIndep\n"
+                                       "CHECK_DEADLOCK FALSE\n" % (focus, "TRUE" if getattr(ck, "tier", "quick") == "thorough" else "FALSE"), timeout=3000)
     if r.violated:
         ck.violation("spec: GpExact " + ",".join(r.violated), {"violated": r.violated}, site="spec")
     must_pass(r, "MC_GpExact")
